@@ -565,3 +565,8 @@ ANY_ENC = Contract(
         ('octets-verbatim', 'result[0] == content and result[2] is True'),
         ('framing-follows-the-length-mode', 'result[1] == (not options.get("defMode", True))')])
 CONTRACTS = CONTRACTS + [CHOICE_ENC, ANY_ENC]
+
+
+# ---- contracts over a record / collection of a fixed small size are bounded instances, labelled so (never counted as proved) -----
+SEQ_ENC.bounded = 'records of exactly %d components, every OPTIONAL / DEFAULT / set / equals-default pattern (symbolic flags)' % NCOMP
+SEQOF_COMPONENTS.bounded = 'collections of exactly %d elements' % NCOMP
